@@ -154,9 +154,15 @@ def check(run, ctx):
             run.ok(I5, "rule_matches", "every exit other than `return True` has consulted the alias table")
         else:
             run.finding(I5, "rule_matches", f"alias-bypass:{norm(cut)[:50]}", f"rule_matches can answer `{norm(cut)[:60]}` without consulting _matches_via_alias: a directive written with the deprecated linter name in that form (e.g. the wildcard `print-statements.*`) no longer silences the renamed rule", f"{rm_f.module.rel}:{getattr(cut, 'lineno', rm_f.node.lineno)}")
+    _rm_all = [g for g in repo.funcs_in(f"{RM}.") if g.parent is None]
+    def _called_in_module(name):     # such a parameter is judged at its call sites (below): the callee may compare it as it is
+        return any(isinstance(c, ast.Call) and call_name(c) == name for g in _rm_all for c in ast.walk(g.node))
     for fn in ("_matches_pattern_directly", "_matches_via_alias", "_pattern_matches_deprecated_id"):
         f = repo.func(f"{RM}.{fn}")
         params = {a.arg for a in f.node.args.args}
+        if _called_in_module(f.name):
+            folded_locally = {n.func.value.id for n in ast.walk(f.node) if isinstance(n, ast.Call) and isinstance(n.func, ast.Attribute) and n.func.attr in ("lower", "casefold") and isinstance(n.func.value, ast.Name)}
+            params = {p_ for p_ in params if p_ in folded_locally}    # a parameter the function folds itself must not also be compared raw
         raw = []
         for n in ast.walk(f.node):
             if isinstance(n, ast.Compare):
@@ -182,8 +188,12 @@ def check(run, ctx):
     rm_funcs = [g for g in repo.funcs_in(f"{RM}.") if g.parent is None]
     n_lp = 0
     for callee in rm_funcs:
+        # by role, not by name: the parameter is an operand of ==/in/startswith/endswith as it is, and the callee never folds it
+        raw_cmp = {x.id for n in ast.walk(callee.node) if isinstance(n, ast.Compare) for x in [n.left] + n.comparators if isinstance(x, ast.Name)}
+        raw_cmp |= {n.func.value.id for n in ast.walk(callee.node) if isinstance(n, ast.Call) and isinstance(n.func, ast.Attribute) and n.func.attr in ("startswith", "endswith") and isinstance(n.func.value, ast.Name)}
+        folds_itself = {n.func.value.id for n in ast.walk(callee.node) if isinstance(n, ast.Call) and isinstance(n.func, ast.Attribute) and n.func.attr in ("lower", "casefold") and isinstance(n.func.value, ast.Name)}
         for i, a in enumerate(callee.node.args.args):
-            if not a.arg.endswith("_lower"):
+            if a.arg not in raw_cmp or a.arg in folds_itself:
                 continue
             for caller in rm_funcs:
                 for c in ast.walk(caller.node):
@@ -196,12 +206,12 @@ def check(run, ctx):
                     folded = contains(arg, lambda x: isinstance(x, ast.Call) and call_name(x) in ("lower", "casefold"))
                     if isinstance(arg, ast.Name) and not folded:
                         binds = [b.value for b in ast.walk(caller.node) if isinstance(b, ast.Assign) and len(b.targets) == 1 and isinstance(b.targets[0], ast.Name) and b.targets[0].id == arg.id]
-                        folded = (bool(binds) and all(contains(b, lambda x: isinstance(x, ast.Call) and call_name(x) in ("lower", "casefold")) for b in binds)) or (not binds and arg.id.endswith("_lower") and arg.id in {p_.arg for p_ in caller.node.args.args})
+                        folded = (bool(binds) and all(contains(b, lambda x: isinstance(x, ast.Call) and call_name(x) in ("lower", "casefold")) for b in binds)) or (not binds and arg.id in {p_.arg for p_ in caller.node.args.args} and arg.id not in {x.func.value.id for x in ast.walk(caller.node) if isinstance(x, ast.Call) and isinstance(x.func, ast.Attribute) and x.func.attr in ("lower", "casefold") and isinstance(x.func.value, ast.Name)} and False)
                     if folded:
                         run.ok(I5, f"{caller.name} -> {callee.name}({a.arg})", "case-folded argument")
                     else:
-                        run.finding(I5, caller.name, f"unfolded-arg:{callee.name}:{a.arg}", f"{caller.name} hands `{norm(arg)[:40]}` to {callee.name}, which compares its parameter {a.arg} without folding it: a directive that spells the (deprecated) rule name with capitals (`ignore[Print-Statements]`) no longer matches", f"{caller.module.rel}:{c.lineno}")
-    run.require(n_lp >= 1, "I5: no call site hands a value to a *_lower parameter (positive control: _matches_via_alias -> _pattern_matches_deprecated_id)")
+                        run.finding(I5, caller.name, f"unfolded-arg:{callee.name}:{a.arg}", f"{caller.name} hands `{norm(arg)[:40]}` to {callee.name}, which compares its parameter `{a.arg}` as it is: a directive that spells the (deprecated) rule name with capitals (`ignore[Print-Statements]`) no longer matches", f"{caller.module.rel}:{c.lineno}")
+    run.require(n_lp >= 1, "I5: no call site hands a value to a parameter the callee compares unfolded (positive control: _matches_via_alias -> _pattern_matches_deprecated_id)")
     ids = L.emitted_ids()
     aliases = repo.fold(repo.mod("src.core.rule_aliases"), repo.mod("src.core.rule_aliases").assigns.get("RULE_ID_ALIASES"))
     run.require(isinstance(aliases, dict), "RULE_ID_ALIASES not foldable")
